@@ -21,6 +21,7 @@ import ICG.Lemmas.BoundsCommon
 
 namespace ICG.C03
 open ICG Table
+open ICG.BoundsCommon
 
 variable {α : Type}
 
